@@ -290,6 +290,10 @@ class Gen:
         self.strctr += 1
         w = self.r.choice(WORDS)
         extra = self.r.choice(["", "", "", " x", "é", "-%d" % self.strctr])
+        if getattr(self, "cur_layer", None) == 3 and self.r.chance(0.2):
+            # inside handlers (these never reach the .ui, which cannot hold control characters): a control character right
+            # before characters that are hex or octal digits, quotes, a backslash, a trigraph-like run
+            extra = self.r.choice(["\x071", "\x1fda", "\x024f", "\x7f7", "\x1b[1m", "\x0112", "\"q\"", "a\\b", "??/", "\x08\x0c"])
         return "%s%d%s" % (w, self.strctr, extra)
 
     def lit(self, ty):
@@ -555,7 +559,7 @@ class Gen:
     def gen_block(self, ty, depth):
         r = self.r
         k = r.weighted([(3, "local-obj"), (2, "if-assign"), (2, "switch"), (2, "guard-let"), (1, "same-block"), (1, "const"),
-                        (3, "reassign-straight"), (1, "two-locals"), (2, "read-around-branch"), (1, "reassign-named"), (3, "two-props")])
+                        (3, "reassign-straight"), (1, "two-locals"), (2, "read-around-branch"), (1, "reassign-named"), (3, "two-props"), (3, "arms")])
         pairs = {"int": ("intVal", "pickVal"), "string": ("text", "text2"), "bool": ("flag", "flag2")}
         self.locals_ctr += 1
         v = "v%d" % self.locals_ctr
@@ -599,6 +603,32 @@ class Gen:
                 "bool": lambda a, b: ["bin", "bool", "^", a, b], "double": lambda a, b: ["bin", "double", "+", a, b],
                 "uint": lambda a, b: ["bin", "uint", "+", a, b]}.get(ty)
         src0 = [x for x in SRC.get(ty, []) if x[2] == 0]
+        if k == "arms" and comb and src0 and len(self.widgets_named()) >= 2:
+            # a local holding a NAMED object (so its reads can be connected statically), re-pointed inside one arm of an
+            # if / else and read in the other arm, in the same arm, and after the join: what the local holds at a read is
+            # decided by the path that leads there, not by the statement printed just above it
+            pr = r.choice(src0)[1]
+
+            def nm():
+                i, c = r.choice(self.widgets_named())
+                return ["obj", i] if c == "SimWidget" else ["upcast", "SimWidget", ["obj", i]]
+            self.locals_ctr += 1
+            s1 = "s%d" % self.locals_ctr
+            rd = ["prop", ["local", v], pr]
+            then, other = [], []
+            if r.chance(0.85):
+                then.append(["assign", v, nm()])
+            if r.chance(0.6):
+                then.append(["assign", s1, rd])
+            if r.chance(0.35):
+                other.append(["assign", v, nm()])
+            if r.chance(0.85) or not then:
+                other.append(["assign", s1, rd])
+            if r.chance(0.3):
+                then, other = other, then
+            stmts = [["let", v, nm()], ["let", s1, self.lit(ty)], ["if", self.dyn_bool(), then or [["assign", s1, rd]], other or None]]
+            stmts.append(["return", comb(["local", s1], rd) if r.chance(0.4) else ["local", s1]])
+            return {"kind": "block", "stmts": stmts}
         if k in ("reassign-straight", "two-locals", "read-around-branch", "reassign-named") and comb and src0:
             # one local (or two) holding dynamically obtained pointers, re-assigned in straight-line code or around a
             # branch between two reads of the same property: every generation of the local needs its own subscription
